@@ -43,6 +43,9 @@ def pending_press(s):
     async def press():
         dev = (list(f.lights) + list(f.blowers))[0]
         dev.turn_on()                     # (synchronous API of the awaitable facade: starts a task)
+        # ... and a second command of the same kind right behind it (two tasks of one name: the first holds the
+        # protocol lock, the second queues behind it)
+        s.spa.press(2)
     s.run(press())
     s.advance(0.4)
 
